@@ -411,6 +411,11 @@ def check_c06(prop, tier):
         for s in range(1 if n > 1 else 0, n + 2):
             for st in ("RAM", "DISK"):
                 cfgs.append(D.Config("Mixed", (s, st), n))
+    # magnitude layer: step and unit counts beyond 256 (store-nearly-all)
+    for n in (257, 258) if tier == "quick" else (257, 258, 300, 600):
+        for s in (n - 1, n - 2, n - 5, n + 3):
+            for st in ("RAM", "DISK"):
+                cfgs.append(D.Config("Mixed", (s, st), n))
 
     parts = stream_costs(cfgs)
     got = {}
